@@ -161,8 +161,10 @@ public:
     else {
       if (!(a.extents() == b.extents()))
         return false;
+      // compare in the common type: narrowing b's stride to index_type could make different strides equal
+      using I = std::common_type_t<index_type, typename OtherMapping::index_type>;
       for (rank_type r = 0; r < rank_; ++r)
-        if (a.stride(r) != index_type(b.stride(r)))
+        if (I(a.stride(r)) != I(b.stride(r)))
           return false;
       return true;
     }
